@@ -206,6 +206,9 @@ func TypeString(t types.Type) string {
 // LookupGoType resolves a type written in a contract: "*Name", "Name", "pkg.Name", "[]Name".
 func (e *Engine) LookupGoType(s string, home *types.Package) types.Type {
 	s = strings.TrimSpace(s)
+	if s == "struct{}" {
+		return types.NewStruct(nil, nil)
+	}
 	if strings.HasPrefix(s, "*") {
 		t := e.LookupGoType(s[1:], home)
 		if t == nil {
